@@ -51,6 +51,14 @@ const Rule = "cases = (grammar, optional precedence levels, op list) drawn from 
 	"whose executable Model would take longer than the library are ORACLE-ONLY (hx.Case.NoModel, counted in oracle_only_cases): " +
 	"judged by Earley membership, derivation replay, yield, SLR=>LALR=>LR(1), agreement of the constructions and `expect=table` " +
 	"(the family is SLR(1) by construction: a conflict verdict is inadmissible); thorough compares kw:257, fan:256, la:257 with the Model too. " +
+	"Second round: (a) bucket cases: 17-23 terminal (non-terminal) names found by gx.SameBucketNames - which calls grammar.HashTerminal / " +
+	"HashNonTerminal - to share one probe path of the 31-slot quadratic ACTION (GOTO) row, 34-50 for the 67-slot row, all in the row of ONE " +
+	"state (state 0, a non-initial state, the lookaheads of one reduce, the GOTO row), three constructions + parses, under the watchdog; " +
+	"(b) comp=lralike: alternatives of one head that are different symbol strings with equal numbers of terminals and non-terminals and " +
+	"the same String() rendering (non-terminal names with blanks, a non-terminal named like a written terminal), LL(1) by construction, " +
+	"ORACLE-ONLY because the numbering of tied states follows the iteration order of the item sets (and without the table validator, " +
+	"which recomputes the item sets); (c) every input length 0..200 on the input-length families; (d) the keyword table at 63-65 (thorough: " +
+	"257) next to an LR(1)-not-LALR / LALR-not-SLR gadget; thorough also every size 1..48 of kw/fan/la. " +
 	"non-trivial = a construction produced a conflict-free table on which at least one string was accepted and one rejected, " +
 	"or the constructions differed (boundary), or precedence resolved at least one conflict cell and a tree was compared with " +
 	"the precedence-climbing reference, or a resolve/compare op reached a decision between two listed handles; " +
